@@ -355,7 +355,7 @@ def sign_match_cases(rng, res, n):
             md = Envelope.from_signable(lay) if dsse else Metablock(signed=lay)
             md.dump("l.layout")
             variant = rng.choice(["sign_verify_ok", "verify_wrong_key", "verify_unsigned", "verify_with_append", "both_key_kinds",
-                                  "missing_file", "sign_bad_key", "link_two_keys", "match_equal", "match_changed", "match_missing_link",
+                                  "missing_file", "sign_bad_key", "link_two_keys", "match_equal", "match_changed", "match_missing_link", "match_other_algorithm", "match_no_digest", "match_extra_file",
                                   "link_append", "link_one_key", "verify_gpg_no_id", "verify_with_output", "no_key_arg",
                                   "verify_with_empty_output", "verify_many", "verify_many", "verify_many", "link_verify_gpg_no_id"])
             if variant in ("sign_verify_ok", "verify_wrong_key"):
@@ -448,6 +448,16 @@ def sign_match_cases(rng, res, n):
                 outcome = "success"
                 if variant == "match_changed":
                     open("a.txt", "w").write("changed\n"); outcome = "differ"
+                elif variant in ("match_other_algorithm", "match_no_digest"):
+                    # a link whose record for the file shares no hash algorithm with the local one (written by another
+                    # tool, or with other settings), and a local file that is not the recorded one: nothing shows the
+                    # files equal, the status must not say so
+                    rec = {"sha512": hashlib.sha512(b"a\n").hexdigest()} if variant == "match_other_algorithm" else {}
+                    lk = Link(name="s", products={"a.txt": rec})
+                    (Envelope.from_signable(lk) if dsse else Metablock(signed=lk)).dump(os.path.join(d, "s.link"))
+                    open("a.txt", "w").write("changed\n"); outcome = "differ"
+                elif variant == "match_extra_file":
+                    open("b.txt", "w").write("b\n"); argv += ["b.txt"]; outcome = "differ"
                 elif variant == "match_missing_link":
                     argv[1] = os.path.join(d, "nope.link"); outcome = "load"
                 _av = argv
